@@ -1672,6 +1672,11 @@ class sptensor:
             keep_modes = np.array([], dtype=int)
         else:
             old_modes = np.atleast_1d(old_modes)
+            assert (
+                np.all(old_modes >= 0)
+                and np.all(old_modes < self.ndims)
+                and len(np.unique(old_modes)) == len(old_modes)
+            ), "Modes to reshape must be distinct and in the range of self.ndims"
             keep_modes = np.setdiff1d(np.arange(0, self.ndims, dtype=int), old_modes)
 
         shapeArray = np.array(self.shape)
